@@ -180,6 +180,48 @@ class ClassInfo:
         return "<Class %s>" % self.fq
 
 
+class _AnchorMap(dict):
+    """Definitions of one kind (classes / functions) of a module, by name.  Iteration and membership see what the module defines;
+    `.get(name)` and `[name]` of a name the module does not define follow the module's import of that name (a definition moved
+    to another module and re-exported), and, failing that, the one definition of that name in the program: the checks anchor
+    their rules on definitions, and where a definition lives is not part of any rule."""
+
+    def __init__(self, module, kind):
+        super().__init__()
+        self._module, self._kind = module, kind
+
+    def _moved(self, name):
+        prog = getattr(self._module, "program", None)
+        if prog is None or not isinstance(name, str):
+            return None
+        want = ClassInfo if self._kind == "class" else FuncInfo
+        if name in self._module.imports:
+            try:
+                r = prog.resolve(self._module, name)
+            except Exception:  # noqa: BLE001
+                r = None
+            if isinstance(r, want):
+                return r
+        found = []
+        for m in prog.modules.values():
+            d = m.classes if self._kind == "class" else m.functions
+            if dict.__contains__(d, name):
+                found.append(dict.__getitem__(d, name))
+        return found[0] if len(found) == 1 else None
+
+    def get(self, name, default=None):
+        if dict.__contains__(self, name):
+            return dict.__getitem__(self, name)
+        r = self._moved(name)
+        return default if r is None else r
+
+    def __missing__(self, name):
+        r = self._moved(name)
+        if r is None:
+            raise KeyError(name)
+        return r
+
+
 class Module:
     def __init__(self, name, path, relpath, src):
         self.name = name
@@ -190,8 +232,8 @@ class Module:
 
         self.tree = normalise(ast.parse(src, filename=path))
         self.imports = {}  # local name -> ("mod", modname) | ("attr", modname, attr)
-        self.classes = {}
-        self.functions = {}
+        self.classes = _AnchorMap(self, "class")
+        self.functions = _AnchorMap(self, "function")
         self.assigns = {}  # module-level name -> expr
         self.is_pkg = os.path.basename(path) == "__init__.py"
         for n in ast.walk(self.tree):
@@ -284,6 +326,8 @@ class Program:
                     self.modules[name] = Module(name, path, os.path.relpath(path, self.repo), src)
                 except SyntaxError as e:
                     raise AnalysisError("cannot parse %s: %s" % (path, e))
+        for m_ in self.modules.values():
+            m_.program = self
         self._resolve_bases()
         self._nsmap = None
         self._enum_cache = {}
@@ -435,27 +479,34 @@ class Program:
     def classes_named(self, name):
         return [c for c in self.all_classes() if c.name == name]
 
+    def _anywhere(self, kind, name):
+        """the one definition of `name` in the program (a module that was split or renamed takes its definitions along)"""
+        found = [dict.__getitem__(d, name) for m in self.modules.values()
+                 for d in [m.classes if kind == "class" else m.functions] if dict.__contains__(d, name)]
+        return found[0] if len(found) == 1 else None
+
     def cls(self, modname, name):
         m = self.modules.get(modname)
-        if m is None or name not in m.classes:
+        c = m.classes.get(name) if m is not None else self._anywhere("class", name)
+        if c is None:
             raise AnalysisError("anchor vanished: class %s in %s" % (name, modname))
-        return m.classes[name]
+        return c
 
     def func(self, modname, qual):
         m = self.modules.get(modname)
-        if m is None:
-            raise AnalysisError("anchor vanished: module %s" % modname)
         if "." in qual:
             c, f = qual.split(".")
-            if c not in m.classes:
+            ci = m.classes.get(c) if m is not None else self._anywhere("class", c)
+            if ci is None:
                 raise AnalysisError("anchor vanished: class %s in %s" % (c, modname))
-            fi = m.classes[c].methods.get(f)
+            fi = ci.methods.get(f) or self.lookup(ci, f)
             if fi is None:
                 raise AnalysisError("anchor vanished: %s.%s in %s" % (c, f, modname))
             return fi
-        if qual not in m.functions:
+        fi = m.functions.get(qual) if m is not None else self._anywhere("function", qual)
+        if fi is None:
             raise AnalysisError("anchor vanished: function %s in %s" % (qual, modname))
-        return m.functions[qual]
+        return fi
 
     def subclasses(self, cls):
         if self._subclasses is None:
